@@ -1,4 +1,5 @@
 mod c01;
+mod c03;
 mod c05;
 mod c07;
 mod c10;
@@ -27,6 +28,7 @@ fn main() {
     let args = util::parse_args(&argv[2..]);
     match argv[1].as_str() {
         "c01" => c01::main(&args),
+        "c03" => c03::main(&args),
         "c05" => c05::main(&args),
         "c07" => c07::main(&args),
         "c10" => c10::main(&args),
